@@ -7,6 +7,8 @@
 #include <shark/LinAlg/ModifiedKernelMatrix.h>
 #include <shark/LinAlg/PrecomputedMatrix.h>
 #include <shark/LinAlg/BlockMatrix2x2.h>
+#include <shark/Models/Kernels/EvalSkipMissingFeatures.h>
+#include <shark/LinAlg/ExampleModifiedKernelMatrix.h>
 #include <shark/LinAlg/CachedMatrix.h>
 #include <shark/Models/Kernels/LinearKernel.h>
 #include <fstream>
@@ -24,8 +26,10 @@ struct World {
 	LinearKernel<RealVector> kernel; Data<RealVector> data; LabeledData<RealVector, unsigned int> ldata;
 	KM* km; RM* rm; MM* mm; KM* pbase; PrecomputedMatrix<KM>* pm; KM* bbase; BlockMatrix2x2<KM>* bm; RM* crm; CachedMatrix<RM>* cm;
 	std::size_t n;
+	ExampleModifiedKernelMatrix<RealVector, double>* xm;
 	void dump(std::ostream& o) {
-		o << "K="; mat(o, *km, n); o << " R="; mat(o, *rm, n); o << " M="; mat(o, *mm, n); o << " P="; mat(o, *pm, n);
+		o << "X="; for (std::size_t i = 0; i != n; ++i) for (std::size_t j = 0; j != n; ++j) { if (i + j) o << ","; o << (long long)(16.0 * xm->entry(i, j)); }
+		o << " K="; mat(o, *km, n); o << " R="; mat(o, *rm, n); o << " M="; mat(o, *mm, n); o << " P="; mat(o, *pm, n);
 		o << " B="; mat(o, *bm, 2 * n);
 		std::vector<double> st(n); rm->row(n - 1, 0, n, st.data());
 		o << " rowR="; for (std::size_t j = 0; j != n; ++j) { if (j) o << ","; o << (long long)st[j]; }
@@ -49,11 +53,13 @@ int main(int argc, char** argv) {
 			w->km = new KM(w->kernel, w->data); w->rm = new RM(w->kernel, w->data, diag); w->mm = new MM(w->kernel, w->ldata, 2.0, -1.0);
 			w->pbase = new KM(w->kernel, w->data); w->pm = new PrecomputedMatrix<KM>(w->pbase);
 			w->bbase = new KM(w->kernel, w->data); w->bm = new BlockMatrix2x2<KM>(w->bbase);
+			w->xm = new ExampleModifiedKernelMatrix<RealVector, double>(w->kernel, w->data);
+			{ RealVector sc(n); for (std::size_t i = 0; i != n; ++i) sc(i) = (double)(1 << labs[i]); w->xm->setScalingCoefficients(sc); }
 			w->crm = new RM(w->kernel, w->data, diag); w->cm = new CachedMatrix<RM>(w->crm, 2 * n + 1);
 			std::cout << "D "; w->dump(std::cout); std::cout << std::endl;
 		} else if (cmd == "F") {
 			w->km->flipColumnsAndRows(a[0], a[1]); w->rm->flipColumnsAndRows(a[0], a[1]); w->mm->flipColumnsAndRows(a[0], a[1]);
-			w->pm->flipColumnsAndRows(a[0], a[1]); w->cm->flipColumnsAndRows(a[0], a[1]);
+			w->pm->flipColumnsAndRows(a[0], a[1]); w->cm->flipColumnsAndRows(a[0], a[1]); w->xm->flipColumnsAndRows(a[0], a[1]);
 			std::cout << "F "; w->dump(std::cout); std::cout << std::endl;
 		} else if (cmd == "Q") { // Q k a b : RegularizedKernelMatrix::row(k,a,b,storage) with guard cells around the buffer
 			std::size_t k = a[0], st = a[1], en = a[2];
